@@ -2,6 +2,7 @@ package props
 
 import (
 	"bytes"
+	"encoding/binary"
 	"fmt"
 	"testing"
 
@@ -53,6 +54,19 @@ func (r *c15run) tagOf(class, salt int) uint32 {
 	return 0xffffffff
 }
 
+// learnOwn notes that the victim has an instance tag of its own once a four-byte draw of at least 0x100 is on record.
+func (r *c15run) learnOwn() {
+	if r.ownKnown {
+		return
+	}
+	for _, d := range r.m.A.R.Draws {
+		if d.N == 4 && binary.BigEndian.Uint32(d.Data) >= 0x100 {
+			r.ownKnown = true
+			return
+		}
+	}
+}
+
 type c15run struct {
 	m           *Mix
 	o           *sim.Outcome
@@ -97,6 +111,16 @@ func (r *c15run) deliverHostile(wire []byte, st, rt uint32, what string) {
 	// replies to hostile messages never reach the genuine peer in this world (what was in flight before stays)
 	r.m.QtoR = r.m.QtoR[:inFlight]
 	after := v.C.GetTheirInstanceTag()
+	// the victim may have chosen its own instance tag without telling anybody (the first message that makes it look at
+	// a receiver tag does that): what it drew is on record in its randomness source
+	r.learnOwn()
+	if r.ownKnown {
+		if now := v.C.GetOurInstanceTag(); own == 0 || own != now {
+			if rt == now {
+				own = now // addressed to the tag the victim has (just) given itself: not foreign
+			}
+		}
+	}
 	foreign := before != 0 && (st != before || (rt != 0 && rt != own))
 	switch {
 	case malformedTags(st, rt):
